@@ -1313,6 +1313,37 @@ def gen_lean_card(ctx):
         ob.status = 'unknown'      # a tool failure is never a violation of the property
 
 
+def gen_lean_ledger(ctx):
+    """thorough tier: the finite-sum facts the vote-ledger ghosts rest on (sum-update laws of T, G and sumB; empty-sum, all-zero,
+    pointwise-equal lemmas; closing facts of the positional partial sums) are re-checked by Lean 4 + Mathlib from lean/Ledger.lean.
+    In the quick tier they are listed as assumption A-ledger."""
+    import subprocess
+    root = os.path.dirname(os.path.dirname(os.path.abspath(__file__)))
+    src = os.path.join(root, 'lean', 'Ledger.lean')
+    P = ['C02', 'C06', 'C08']
+    if ctx.tier != 'thorough':
+        ctx.assumptions.append('A-ledger: the ledger ghosts follow tally_update / sumB_update / pile_move / pile_reweight; pile_empty, '
+                               'sumB_all_zero, sumB_pointwise, piles_total, prefix_sum_closing (lean/Ledger.lean, re-checked by Lean in the thorough tier)')
+        return
+    ok, detail = False, ''
+    try:
+        txt = open(src).read()
+        if 'sorry' in txt or 'axiom ' in txt:
+            detail = 'the Lean source contains sorry / axiom'
+        else:
+            p = subprocess.run(['lean', src], capture_output=True, text=True, timeout=1800, cwd=os.path.dirname(src))
+            out = (p.stdout or '') + (p.stderr or '')
+            ok = p.returncode == 0 and 'error' not in out
+            detail = out[-400:] if not ok else 'lean accepted the nine ledger lemmas'
+    except Exception as e:     # noqa
+        detail = 'lean could not be run: %s' % e
+    ob = ctx.col.add_done('LEMMA', P, 'lean/Ledger.lean', 'ledger-sums',
+                          'finite-sum facts behind the ledger ghosts: update laws of the total, the piles and sums over a batch; empty / all-zero / '
+                          'pointwise-equal sums; closing facts of the positional partial sums (Lean 4 + Mathlib)', ok, detail=detail)
+    if not ok:
+        ob.status = 'unknown'      # a tool failure is never a violation of the property
+
+
 # --------------------------------------------------------------------------------------------- model conformance of Candidates.select
 def gen_select_conformance(ctx):
     """the abstract model of Candidates.select used by the rule-level proofs is checked against the real body:
@@ -1396,9 +1427,9 @@ GENERATORS = {
     'C10': [gen_c10_scans],
     'C11': [gen_c11_scans, gen_select_conformance, gen_rounds_protocol],
     'C03': [gen_c03_scans, gen_rounds_protocol],
-    'C08': [gen_c08_scans, gen_c20_scans],
+    'C08': [gen_c08_scans, gen_c20_scans, gen_lean_ledger],
     'C07': [gen_c07_scans, gen_select_conformance],
-    'C06': [gen_c09_scans, gen_c03_scans],
-    'C02': [gen_c09_scans],
+    'C06': [gen_c09_scans, gen_c03_scans, gen_lean_ledger],
+    'C02': [gen_c09_scans, gen_lean_ledger],
     'C20': [gen_c20_scans],
 }
